@@ -22,6 +22,8 @@ def cases(ctx):
     rng = ctx.rng
     per = 30 if not thorough else 300
     for ex_i, ex in enumerate(EX.ALL):
+        if not getattr(ex, 'in_c13', True):
+            continue
         for i in range(per):
             inst = ex.instance(rng)
             if inst is None:
